@@ -122,39 +122,55 @@ pub fn put_options(i: usize, d: &DocSpec, instant: bool) -> PutOptions {
 /// Ingest the corpus into a fresh memory. Any API error is an infrastructure abort for the
 /// retrieval properties (C01 owns ingestion).
 pub fn build(tag: &str, spec: &CorpusSpec) -> Result<Built, Fail> {
+    let mut b = start(tag)?;
+    put_all(&mut b, spec)?;
+    finish(&mut b, spec)?;
+    Ok(b)
+}
+
+pub fn start(tag: &str) -> Result<Built, Fail> {
     let dir = Scratch::new(tag);
     let path = dir.path("c.mv2");
-    let mut mem = Memvid::create(&path).map_err(infra)?;
-    let mut doc_frame = Vec::new();
+    let mem = Memvid::create(&path).map_err(infra)?;
+    Ok(Built { dir, path, mem, doc_frame: Vec::new() })
+}
+
+/// Put every document (committing every `commit_every` documents) but leave the tail uncommitted.
+pub fn put_all(b: &mut Built, spec: &CorpusSpec) -> Result<(), Fail> {
     let dim = spec.dim.max(1) as usize;
     for (i, d) in spec.docs.iter().enumerate() {
         let text = doc_text(d);
-        let id = mem.next_frame_id();
+        let id = b.mem.next_frame_id();
         let o = put_options(i, d, spec.instant);
         let r = match d.emb {
-            Some(s) => mem.put_with_embedding_and_options(text.as_bytes(), crate::gen::embedding(s, dim), o),
-            None => mem.put_bytes_with_options(text.as_bytes(), o),
+            Some(s) => b.mem.put_with_embedding_and_options(text.as_bytes(), crate::gen::embedding(s, dim), o),
+            None => b.mem.put_bytes_with_options(text.as_bytes(), o),
         };
         r.map_err(|e| Fail::new("abort:put", e.to_string()))?;
-        doc_frame.push(Some(id));
+        b.doc_frame.push(Some(id));
         if spec.commit_every > 0 && (i + 1) % spec.commit_every as usize == 0 {
-            mem.commit().map_err(|e| Fail::new("abort:commit", e.to_string()))?;
+            b.mem.commit().map_err(|e| Fail::new("abort:commit", e.to_string()))?;
         }
     }
-    mem.commit().map_err(|e| Fail::new("abort:commit", e.to_string()))?;
+    Ok(())
+}
+
+/// Final commit, then the deletes and their commit.
+pub fn finish(b: &mut Built, spec: &CorpusSpec) -> Result<(), Fail> {
+    b.mem.commit().map_err(|e| Fail::new("abort:commit", e.to_string()))?;
     if !spec.deletes.is_empty() && !spec.docs.is_empty() {
         let mut done = std::collections::BTreeSet::new();
         for k in &spec.deletes {
             let i = crate::util::pick_index(*k, spec.docs.len());
             if done.insert(i) {
-                if let Some(Some(id)) = doc_frame.get(i) {
-                    mem.delete_frame(*id).map_err(|e| Fail::new("abort:delete", e.to_string()))?;
+                if let Some(Some(id)) = b.doc_frame.get(i) {
+                    b.mem.delete_frame(*id).map_err(|e| Fail::new("abort:delete", e.to_string()))?;
                 }
             }
         }
-        mem.commit().map_err(|e| Fail::new("abort:commit", e.to_string()))?;
+        b.mem.commit().map_err(|e| Fail::new("abort:commit", e.to_string()))?;
     }
-    Ok(Built { dir, path, mem, doc_frame })
+    Ok(())
 }
 
 pub fn all_frames(mem: &Memvid) -> Vec<Frame> {
